@@ -137,11 +137,16 @@ func c01Run(c lib.Case, env *lib.Env) lib.Result {
 			}
 		}
 		var dr *lib.DiffResult
+		lib.StoredOldSig = (c.ID+ci)%3 == 2
 		err, panicked, stack := lib.Guard(func() error {
 			var e error
 			dr, e = lib.DiffDirs(oldDir, newDir, comp, wrap, nil, nil)
 			return e
 		})
+		if lib.StoredOldSig {
+			res.Add("diffs_against_a_stored_signature", 1)
+		}
+		lib.StoredOldSig = false
 		if panicked {
 			res.Violate("diff-panic", err.Error(), stack)
 			continue
